@@ -86,6 +86,19 @@ struct Sim {
 
 const CALL_BUDGET: u64 = 200_000;
 
+/// Records, when a nested stabilise call returns or unwinds, how many instrumented node
+/// functions ran during it.
+struct NestedGuard {
+    calls: Rc<Cell<u64>>,
+    before: u64,
+    out: Rc<Cell<u64>>,
+}
+impl Drop for NestedGuard {
+    fn drop(&mut self) {
+        self.out.set(self.out.get() + (self.calls.get() - self.before));
+    }
+}
+
 fn tick(calls: &Rc<Cell<u64>>) {
     calls.set(calls.get() + 1);
     if calls.get() > CALL_BUDGET {
@@ -299,6 +312,7 @@ pub fn run_on_this_thread(plan: &Plan, keep_trace: bool) -> RunOutput {
                 let st = sim.state.clone();
                 let base = sim.ends[t % sim.ends.len()].clone();
                 let holder: Rc<RefCell<Option<Incr<i64>>>> = Rc::new(RefCell::new(None));
+                let nested_ran: Rc<Cell<u64>> = Rc::new(Cell::new(0));
                 let other_state = IncrState::new();
                 let foreign = other_state.constant(5i64);
                 let r = catch_unwind(AssertUnwindSafe(|| {
@@ -390,23 +404,48 @@ pub fn run_on_this_thread(plan: &Plan, keep_trace: bool) -> RunOutput {
                             }
                         }
                         4 => {
+                            // pending work above the misbehaving node: a dependant that would run
+                            // if the nested call were let through
                             let ws = st.weak();
+                            let (c, nr) = (calls.clone(), nested_ran.clone());
                             let m = base.map(move |x| {
+                                let _g = NestedGuard { calls: c.clone(), before: c.get(), out: nr.clone() };
                                 ws.upgrade().unwrap().stabilise();
                                 *x
                             });
-                            let o = m.observe();
+                            let c2 = calls.clone();
+                            let m2 = m.map(move |x| {
+                                tick(&c2);
+                                *x
+                            });
+                            let o = m2.observe();
                             st.stabilise();
                             drop(o);
                         }
                         _ => {
+                            // the handler first writes a variable (applied at once in the handler
+                            // phase), so the nested call has work it could do
                             let ws = st.weak();
+                            let pv = st.var(0i64);
+                            let c2 = calls.clone();
+                            let pm = pv.map(move |x| {
+                                tick(&c2);
+                                *x
+                            });
+                            let po = pm.observe();
                             let o = base.observe();
+                            let (c, nr) = (calls.clone(), nested_ran.clone());
                             o.subscribe(move |_| {
+                                pv.set(pv.get() + 1);
+                                let _g = NestedGuard { calls: c.clone(), before: c.get(), out: nr.clone() };
                                 ws.upgrade().unwrap().stabilise();
                             });
-                            st.stabilise();
+                            let r = catch_unwind(AssertUnwindSafe(|| st.stabilise()));
                             drop(o);
+                            drop(po);
+                            if let Err(p) = r {
+                                std::panic::resume_unwind(p);
+                            }
                         }
                     }
                 }));
@@ -416,6 +455,9 @@ pub fn run_on_this_thread(plan: &Plan, keep_trace: bool) -> RunOutput {
                     Err(p) => Step::Panicked(panic_message(&p).0),
                 };
                 log.push(format!("misuse {} -> {:?}", cfg.misuse, step));
+                if nested_ran.get() > 0 {
+                    bad!("nested-stabilise-computed", "a stabilise called from inside a {} ran {} node function(s) before it was refused", if cfg.misuse == 4 { "node function" } else { "handler" }, nested_ran.get());
+                }
                 *out.faults.entry(["", "misuse_cycle", "misuse_cycle", "misuse_cross_state", "misuse_nested_stabilise", "misuse_nested_stabilise", "misuse_cycle_through_scope"][(cfg.misuse as usize).min(6)].into()).or_insert(0) += 1;
                 outcome = Some(step);
                 drop(foreign);
